@@ -394,7 +394,11 @@ func (g *PG) stmt(c genCtx) string {
 			return "try{" + r + "(0)}catch(re){emit('r',0,(re instanceof RangeError)?1:0);}"
 		}
 		g.decls = append(g.decls, "function "+r+"(n){var t;if(n<=0||F--<=0)return 0;"+fb+"return "+r+"(n-1)+1;}")
-		return "S.n+=" + r + "(" + strconv.Itoa(g.n(1, 4, "rdepth")) + ");"
+		depth := g.n(1, 4, "rdepth")
+		if g.n(0, 3, "deep?") == 3 {
+			depth = g.n(10, 40, "rdeep")
+		}
+		return "S.n+=" + r + "(" + strconv.Itoa(depth) + ");"
 	case "reenter":
 		if len(g.fns) == 0 {
 			return g.fnDecl(c)
@@ -569,6 +573,16 @@ func (g *PG) infinite(c genCtx) string {
 		"switch(1){case 1:for(;;){}}",
 		"for(;;){(function(){})()}",
 		"while(true);",
+		"try{for(;;){}}catch(ei){}",
+		"try{for(;;){}}finally{}",
+		"try{try{for(;;){}}finally{S.n++}}catch(ei){S.n++}",
+		"try{for(;;);}catch(ei){}",
+		"try{while(true){}}catch(ei){}",
+		"try{do{}while(1);}catch(ei){}finally{}",
+		"try{throw 1}catch(ei){for(;;){}}",
+		"try{}finally{for(;;){}}",
+		"for(;;){try{for(;;){}}catch(ei){}}",
+		"try{LK:for(;;){continue LK}}catch(ei){}",
 	}
 	return shapes[g.n(0, len(shapes)-1, "infshape")]
 }
